@@ -172,16 +172,43 @@ func VerifH_Banned() {
 	_, lines := verifDocLines(verifMenuBanned, k, true)
 	text := verifRender(lines)
 	verifrt.Note("doc", text)
-	bannedT := verifMenuBanned[verifrt.Choice("banned", len(verifMenuBanned))]
-	banned := refKind(bannedT)
+	// the banned set: one kind of the menu or ENUM (which occurs only inside the included file), and with
+	// PAIRS=1 a second one
+	pick := func(name string) directive.Enumeration {
+		c := verifrt.Choice(name, len(verifMenuBanned)+1)
+		if c == len(verifMenuBanned) {
+			return directive.Enum
+		}
+		return refKind(verifMenuBanned[c])
+	}
+	banned := pick("banned")
+	set := []directive.Enumeration{banned}
 	verifrt.Note("banned", banned.String())
+	if verifrt.Bound("PAIRS") == 1 {
+		b2 := pick("banned2")
+		set = append(set, b2)
+		verifrt.Note("banned2", b2.String())
+	}
+	isBanned := func(k directive.Enumeration) bool {
+		for _, b := range set {
+			if b == k {
+				return true
+			}
+		}
+		return false
+	}
 	verifFSInit()
 	verifFiles = map[string][]byte{verifDir + "/inc.jst": []byte("ENUM @c\n")}
 	verifFSWrite(verifFiles)
 	first := -1
+	viaInclude := false
 	for i, ln := range lines {
-		if refKind(ln.t) == banned {
+		if isBanned(refKind(ln.t)) {
 			first = i
+			break
+		}
+		if ln.t == tIncludeFile && isBanned(directive.Enum) {
+			first, viaInclude = i, true // the banned directive is the first one of the included file
 			break
 		}
 	}
@@ -192,21 +219,27 @@ func VerifH_Banned() {
 			verifrt.Stop()
 		}
 		verifReadCalls = nil
-		_, je1 := verifRun(text, WithBannedDirectives(banned))
+		_, je1 := verifRun(text, WithBannedDirectives(set...))
 		verifrt.Assert("C18.banned-rejected", je1 != nil)
 		if je1 != nil {
 			verifrt.Note("diagnostic", je1.Msg)
 			verifrt.Assert("C18.banned-message", strings.Contains(je1.Msg, jerr.DirectiveNotAllowed))
-			verifrt.Assert("C18.banned-located", int(je1.Index()) == refLineOffsets(lines)[first])
+			if viaInclude {
+				// at the directive inside the included file (its first byte)
+				verifrt.Assert("C18.banned-located", int(je1.Index()) == 0)
+			} else {
+				verifrt.Assert("C18.banned-located", int(je1.Index()) == refLineOffsets(lines)[first])
+			}
 		}
-		if banned == directive.Include {
+		if !viaInclude && refKind(lines[first].t) == directive.Include {
 			verifrt.Assert("C18.banned-include-no-file-read", len(verifReadCalls) == 0)
 		}
 		verifrt.Reach("C18.banned-occurs", true)
+		verifrt.Reach("C18.banned-inside-included-file", viaInclude)
 		return
 	}
 	core0, je0 := verifRun(text)
-	core1, je1 := verifRun(text, WithBannedDirectives(banned))
+	core1, je1 := verifRun(text, WithBannedDirectives(set...))
 	verifrt.Assert("C18.unrelated-same-verdict", (je0 == nil) == (je1 == nil))
 	if je0 != nil && je1 != nil {
 		verifrt.Assert("C18.unrelated-same-error", je0.Msg == je1.Msg && je0.Index() == je1.Index())
